@@ -311,6 +311,8 @@ pub struct World {
     pub log: Vec<Event>,
     pub log_enabled: bool,
     pub io_calls: u64,
+    /// file operations bypass the simulated file system (fidelity runs only)
+    pub real_fs: bool,
 }
 
 impl World {
@@ -345,6 +347,7 @@ impl World {
             log: vec![],
             log_enabled: true,
             io_calls: 0,
+            real_fs: false,
         }
     }
 
